@@ -26,6 +26,13 @@ example : Ascending [⟨-5, -5⟩, ⟨1, 10⟩, ⟨20, 20⟩] ∧ validate [⟨-
   refine ⟨?_, by decide, by decide⟩
   simp [Ascending]
 
+/-- non-vacuity (audit): the theorem at four parts with negative bounds, single-value parts and two neighbours sharing the
+end point 10; both sides of the iff are true for 10 and false for 0 -/
+example : (validate [⟨-5, -5⟩, ⟨1, 10⟩, ⟨10, 20⟩, ⟨30, 30⟩] 10 = true ↔
+      ∃ p ∈ ([⟨-5, -5⟩, ⟨1, 10⟩, ⟨10, 20⟩, ⟨30, 30⟩] : List Part), p.min ≤ 10 ∧ 10 ≤ p.max) ∧
+    validate [⟨-5, -5⟩, ⟨1, 10⟩, ⟨10, 20⟩, ⟨30, 30⟩] 10 = true ∧ validate [⟨-5, -5⟩, ⟨1, 10⟩, ⟨10, 20⟩, ⟨30, 30⟩] 0 = false :=
+  ⟨validate_range_correct [⟨-5, -5⟩, ⟨1, 10⟩, ⟨10, 20⟩, ⟨30, 30⟩] (by simp) (by simp [Ascending]) 10, by decide, by decide⟩
+
 /-- without the ascending order the walk is incomplete: `range "5 1"` (accepted, see F75) then rejects the value 1 -/
 example : validate [⟨5, 5⟩, ⟨1, 1⟩] 1 = false := by decide
 
@@ -75,6 +82,12 @@ theorem range_subset_sound_partial (fx : RFix) (t : RType) (base : List Part) (a
 example : loop {} int8 (some [⟨1, 10⟩]) 8 [0x32, 0x2e, 0x2e, 0x35, 0x7c, 0x37] {} = .ok ([⟨2, 5⟩, ⟨7, 7⟩], 2) ∧
     compileRange {} int8 (some [⟨1, 10⟩]) [0x32, 0x2e, 0x2e, 0x35, 0x7c, 0x37] = .ok [⟨2, 5⟩, ⟨7, 7⟩] := ⟨rfl, rfl⟩
 
+/-- non-vacuity (audit): the theorem at `range "2..5|7 | 12..max"` derived from the two-part base `1..10 | 12..20` (three
+parts, white space, the keyword `max`; counter 3 = number of parts): every part lies within a base part -/
+example : ∀ p ∈ ([⟨2, 5⟩, ⟨7, 7⟩, ⟨12, 20⟩] : List Part), Within p [⟨1, 10⟩, ⟨12, 20⟩] :=
+  range_subset_sound_partial {} int8 [⟨1, 10⟩, ⟨12, 20⟩] [50, 46, 46, 53, 124, 55, 32, 124, 32, 49, 50, 46, 46, 109, 97, 120]
+    [⟨2, 5⟩, ⟨7, 7⟩, ⟨12, 20⟩] 3 rfl rfl rfl
+
 /-- widening `range "2..11"` of `1..10` is rejected -/
 example : compileRange {} int8 (some [⟨1, 10⟩]) [0x32, 0x2e, 0x2e, 0x31, 0x31] = .error .valid := rfl
 
@@ -94,6 +107,13 @@ theorem range_parse_safe_fails : ¬ RangeParseSafe {} := by
   intro h
   exact h int8 (some [⟨1, 10⟩]) [0x6d, 0x69, 0x6e, 0x7c, 0x7c] rfl
 
+-- AUDIT: the statement is weaker than its docstring.  It is only about `base = some _` AND a part parser that
+-- accepted; the first half of the docstring ("without a base restriction there is no walk and hence no out-of-bounds
+-- read") and the case "the part parser itself reports an error" are not in the statement (they are proved, but only
+-- inside the proof of `range_parse_safe_fixed`, i.e. under both repairs, although they need neither).  Not vacuous: the
+-- hypotheses are met, e.g. by the F75 witness `1 100` (counter 1 < 2 parts), see the example below.  Minimal repair of
+-- the statement: quantify over `base : Option (List Part)` and ask for the counter bound only where a walk happens —
+-- done as `range_parse_safe_partial_anybase` below (the original is kept).
 /-- The part that holds: without a base restriction there is no walk and hence no out-of-bounds read, and with one the
 walk stays inside whenever the part counter does not exceed the number of parts. -/
 theorem range_parse_safe_partial (fx : RFix) (t : RType) (base : List Part) (arg : Bytes) (parts : List Part)
@@ -126,6 +146,35 @@ theorem range_parse_safe_partial (fx : RFix) (t : RType) (base : List Part) (arg
     subst he
     exact key _ _ _ hw
   | ok b => cases b <;> simp
+
+/-- non-vacuity (audit): the hypotheses at the F75 witness `range "1 100"` against `1..10` on the pinned tree: the parser
+accepts two parts with the counter at 1 (so `range_subset_sound_partial` does not apply) and the walk stays inside -/
+example : compileRange {} int8 (some [⟨1, 10⟩]) [0x31, 0x20, 0x31, 0x30, 0x30] ≠ .error .crashOob :=
+  range_parse_safe_partial {} int8 [⟨1, 10⟩] [0x31, 0x20, 0x31, 0x30, 0x30] [⟨1, 1⟩, ⟨100, 100⟩] 1 rfl (by decide)
+
+/-- **Repaired statement of `range_parse_safe_partial` (audit)** — what its docstring says, for either state of the
+repairs, every type, every argument and every `base`: no out-of-bounds read without a base restriction (no walk), none
+when the part parser rejects, and none with a base restriction whenever the part counter of an accepting parse does not
+exceed the number of parts. -/
+theorem range_parse_safe_partial_anybase (fx : RFix) (t : RType) (base : Option (List Part)) (arg : Bytes)
+    (hdone : ∀ b parts done, base = some b → loop fx t base (arg.length + 1) arg {} = .ok (parts, done) → done ≤ parts.length) :
+    compileRange fx t base arg ≠ .error .crashOob := by
+  cases hl : loop fx t base (arg.length + 1) arg {} with
+  | error e =>
+    unfold compileRange
+    rw [hl]
+    simp only [ne_eq, Except.error.injEq]
+    exact loop_err fx t base _ arg {} e hl
+  | ok r =>
+    obtain ⟨parts, done⟩ := r
+    cases base with
+    | none => unfold compileRange; rw [hl]; simp
+    | some b => exact range_parse_safe_partial fx t b arg parts done hl (hdone b parts done rfl hl)
+
+/-- non-vacuity (audit): no base restriction — the F30 witness `min||` and its over-counted `parts_done` are harmless -/
+example : compileRange {} int8 none [0x6d, 0x69, 0x6e, 0x7c, 0x7c] ≠ .error .crashOob :=
+  range_parse_safe_partial_anybase {} int8 none _ (fun _ _ _ h => by cases h)
+example : loop {} int8 none 6 [0x6d, 0x69, 0x6e, 0x7c, 0x7c] {} = .ok ([⟨-128, -128⟩], 3) := rfl
 
 /-- with fixes/F30.diff the witness `min||` is a syntax error -/
 example : compileRange { f30 := true } int8 (some [⟨1, 10⟩]) [0x6d, 0x69, 0x6e, 0x7c, 0x7c] = .error .valid := rfl
@@ -208,6 +257,21 @@ theorem range_validate_fixed (fx : RFix) (h30 : fx.f30 = true) (h51 : fx.f51 = t
 example : compileRange { f30 := true, f51 := true } int8 (some [⟨1, 10⟩]) [0x32, 0x2e, 0x2e, 0x35, 0x7c, 0x37] =
     .ok [⟨2, 5⟩, ⟨7, 7⟩] := rfl
 
+/-- non-vacuity (audit): with both repairs on, `range "2..5|7 | 12..max"` against `1..10 | 12..20` is still accepted
+(three parts, counter 3), so the four `_fixed` theorems have accepting instances; each is instantiated there -/
+example : ([⟨2, 5⟩, ⟨7, 7⟩, ⟨12, 20⟩] : List Part).length = 3 ∧ Ascending [⟨2, 5⟩, ⟨7, 7⟩, ⟨12, 20⟩] ∧ ([⟨2, 5⟩, ⟨7, 7⟩, ⟨12, 20⟩] : List Part) ≠ [] :=
+  range_parse_invariant_fixed { f30 := true, f51 := true } rfl rfl int8 (some [⟨1, 10⟩, ⟨12, 20⟩])
+    [50, 46, 46, 53, 124, 55, 32, 124, 32, 49, 50, 46, 46, 109, 97, 120] [⟨2, 5⟩, ⟨7, 7⟩, ⟨12, 20⟩] 3 rfl
+example : ∀ p ∈ ([⟨2, 5⟩, ⟨7, 7⟩, ⟨12, 20⟩] : List Part), Within p [⟨1, 10⟩, ⟨12, 20⟩] :=
+  range_subset_sound_fixed { f30 := true, f51 := true } rfl rfl int8 [⟨1, 10⟩, ⟨12, 20⟩]
+    [50, 46, 46, 53, 124, 55, 32, 124, 32, 49, 50, 46, 46, 109, 97, 120] [⟨2, 5⟩, ⟨7, 7⟩, ⟨12, 20⟩] rfl
+example : compileRange { f30 := true, f51 := true } int8 (some [⟨1, 10⟩, ⟨12, 20⟩]) [50, 46, 46, 53, 124, 55, 32, 124, 32, 49, 50, 46, 46, 109, 97, 120] ≠ .error .crashOob :=
+  range_parse_safe_fixed { f30 := true, f51 := true } rfl rfl int8 _ _
+example : validate [⟨2, 5⟩, ⟨7, 7⟩, ⟨12, 20⟩] 7 = true ↔ ∃ p ∈ ([⟨2, 5⟩, ⟨7, 7⟩, ⟨12, 20⟩] : List Part), p.min ≤ 7 ∧ (7 : Int) ≤ p.max :=
+  range_validate_fixed { f30 := true, f51 := true } rfl rfl int8 (some [⟨1, 10⟩, ⟨12, 20⟩])
+    [50, 46, 46, 53, 124, 55, 32, 124, 32, 49, 50, 46, 46, 109, 97, 120] [⟨2, 5⟩, ⟨7, 7⟩, ⟨12, 20⟩] rfl 7
+example : validate [⟨2, 5⟩, ⟨7, 7⟩, ⟨12, 20⟩] 7 = true ∧ validate [⟨2, 5⟩, ⟨7, 7⟩, ⟨12, 20⟩] 6 = false ∧ validate [⟨2, 5⟩, ⟨7, 7⟩, ⟨12, 20⟩] 21 = false := by decide
+
 /-! ## the part parser and the RFC grammar -/
 
 /-- Full-strength statement: `lys_compile_type_range` accepts exactly the arguments of the RFC 7950 `range-arg` /
@@ -273,5 +337,29 @@ example : int8.WF ∧ StrictAsc [⟨-128, 5⟩, ⟨7, 127⟩] := by
   simp [StrictAsc]
 example : sampleRange.KwOK := by
   simp [sampleRange, RangeA.KwOK, PartA.KwOK, RestKwOK]
+
+/-- `min..3 |\t25 .. max` -/
+def sampleLength : RangeA :=
+  { first := { lo := .min, hi := some (⟨[], by decide⟩, ⟨[], by decide⟩, .num ⟨false, [0x33], by decide, by decide⟩) },
+    rest := [(⟨[0x20], by decide⟩, ⟨[0x09], by decide⟩,
+      { lo := .num ⟨false, [0x32, 0x35], by decide, by decide⟩, hi := some (⟨[0x20], by decide⟩, ⟨[0x20], by decide⟩, .max) })] }
+
+/-- the `length` of a string: compared as `uint64_t` -/
+def strLen : RType := { uns := true, lo := 0, hi := 18446744073709551615 }
+
+example : sampleLength.render = [109, 105, 110, 46, 46, 51, 32, 124, 9, 50, 53, 32, 46, 46, 32, 109, 97, 120] := rfl
+
+/-- non-vacuity (audit): the theorem at the flagship sample (signed type, no base: both conjuncts say something) -/
+example : loop {} int8 none (sampleRange.render.length + 1) sampleRange.render {} = .ok ([⟨-128, 5⟩, ⟨7, 127⟩], 2) ∧
+    ((none : Option (List Part)) = none → compileRange {} int8 none sampleRange.render = .ok [⟨-128, 5⟩, ⟨7, 127⟩]) :=
+  range_parse_correct_partial {} int8 ⟨rfl, by decide⟩ none sampleRange [⟨-128, 5⟩, ⟨7, 127⟩]
+    (by simp [sampleRange, RangeA.KwOK, PartA.KwOK, RestKwOK]) rfl (by simp [StrictAsc])
+
+/-- non-vacuity (audit): … and at a `length` (unsigned type) derived from the two-part base `1..10 | 20..30`, where `min` and
+`max` resolve to the bounds of the base (1 and 30), a two-digit number, with both repairs on -/
+example : loop { f30 := true, f51 := true } strLen (some [⟨1, 10⟩, ⟨20, 30⟩]) (sampleLength.render.length + 1)
+      sampleLength.render {} = .ok ([⟨1, 3⟩, ⟨25, 30⟩], 2) :=
+  (range_parse_correct_partial { f30 := true, f51 := true } strLen ⟨rfl, by decide⟩ (some [⟨1, 10⟩, ⟨20, 30⟩]) sampleLength
+    [⟨1, 3⟩, ⟨25, 30⟩] (by simp [sampleLength, RangeA.KwOK, PartA.KwOK, RestKwOK]) rfl (by simp [StrictAsc])).1
 
 end LyModel.Props.C11
